@@ -157,12 +157,21 @@ def compare_batch(spec, batch, rec, workdir):
                          text, ic.hexs(instr.b), instr.l,
                          "rejected by every reference" if vd == "ref_invalid" else "every reference says %s" % (detail,)), wit)
         elif vd == "ref_invalid":
-            rec.fail("%s %s ref_invalid" % (spec.family, name),
+            rec.fail("%s %s%s ref_invalid" % (spec.family, name, form_of(spec, instr)),
                      "%s [%s] decoded by miasm (length %d), rejected by every reference" % (
                          text, ic.hexs(instr.b), instr.l), wit)
         else:
-            rec.fail("%s %s ref_length" % (spec.family, name),
+            rec.fail("%s %s%s ref_length" % (spec.family, name, form_of(spec, instr)),
                      "%s [%s]: miasm length %d, every reference says %s" % (text, ic.hexs(instr.b), instr.l, detail), wit)
+
+
+def form_of(spec, instr):
+    """fixed-width ISAs: the operand codec chain of the decoding table class is part of the key -- one
+    mnemonic has several forms (AND immediate / AND shifted register) with separate decode code"""
+    if spec.unit == 1:
+        return ""
+    sig = ic.codec_sig(spec, instr)
+    return " [%s]" % sig if sig else ""
 
 
 def run_shard(params, rec):
